@@ -423,6 +423,8 @@ def bounded(rep, tier):
 
 
 def check(rep, tier):
+    from vlib import statecensus
+    statecensus.obligations(rep, 'C17', 'render')
     rep.dropped = 'method bodies read with ast.parse; SQLAlchemy calls are stubs / not executed symbolically'
     rep.assume('calls into SQLAlchemy raise only SQLAlchemyError (known to be false for some shapes: bounded stand-in)',
                'frame census is syntactic: a store through a name bound to a call result is treated as a store into a fresh object')
